@@ -1057,14 +1057,12 @@ def _only(f, kinds, required_prefixes, allowed_prefixes=()):
 _ANYKIND = ("rejected", "columns", "affinity", "without-rowid")
 
 # Matchers exist only for the findings that are still open.  The minimal statements of the repaired ones
-# (C07-01, -02, -04, -05, -06, -07, -08, -10, -11, -12, -14, -15, -16) stay in corpus/C07: if one of them fails again nothing
+# (C07-01, -02, -04, -05, -06, -07, -08, -10, -11, -12, -14, -15, -16, -18) stay in corpus/C07: if one of them fails again nothing
 # here matches it and the run reports a VIOLATION.
 MATCHERS = {
     "c07_strict": lambda f: _only(f, ("rejected",), ["trailer:strict"]),
     "c07_slash_dashdash_in_expr": lambda f: (_only(f, ("rejected",), ["expr:slash"], ["expr:"]) or _only(f, ("rejected",), ["expr:dashdash"], ["expr:"])
                                              or _only(f, ("rejected",), ["ident:comment-chars"]) or _only(f, ("rejected",), ["table-ident:comment-chars"])),
-    "c07_bracket_edge": lambda f: (_only(f, _ANYKIND, ["ident:bracket-edge"], ["ident:quote-char-in-bracket"])
-                                   or _only(f, _ANYKIND, ["table-ident:bracket-edge"], ["table-ident:quote-char-in-bracket"])),
     "c07_generated_comment_type": lambda f: _only(f, ("affinity",), ["cons:generated", "cmt:cons-inner"],
                                                   ["cmt2:cons-inner", "cmtonly:cons-inner", "cmtadj:cons-inner", "ws1:cons-inner",
                                                    "wsrun:cons-inner", "slash-star-slash:cons-inner"]),
